@@ -213,7 +213,8 @@ def one_history(col: Collector, rng, index: int):
                 # frames of one direction have been dropped for far longer than the whole retry budget (both loops iterating
                 # fairly in virtual time): "the sender raises after a bounded number of retries" is refuted
                 side = "c2e" if plan_class in ("partition-c2e", "partition-acks") else "e2c"
-                affected = [t for (d, _i), t in first_affected.items() if (d == "c2x") == (side == "c2e")]
+                snd = w.bridge.sender if side == "c2e" else w.ex.sender
+                affected = [t for (d, i_), t in first_affected.items() if (d == "c2x") == (side == "c2e") and i_ in snd.inflight]
                 if affected and w.raised[side] is None and w.clock.ns - min(affected) > 3 * budget_ns:
                     col.violation(f"partition-never-reported:{side}", f"{(w.clock.ns - min(affected)) / 1e9:.0f} virtual s after the first dropped transmission the sender is still retrying and has not raised", wit, index)
                     return
@@ -251,11 +252,12 @@ def one_history(col: Collector, rng, index: int):
             # bounded number of retries, not silence: the affected sender must have raised, within the retry budget
             side = "c2e" if plan_class in ("partition-c2e", "partition-acks") else "e2c"
             affected = [t for (d, _i), t in first_affected.items() if (d == "c2x") == (side == "c2e")]
-            if affected:
-                r = w.raised[side]
-                if r is None:
-                    col.violation(f"partition-never-reported:{side}", "frames of one direction were dropped from some point on; the sender neither delivered nor raised", wit, index)
-                    return
+            r = w.raised[side]
+            if affected and r is None:
+                # every message was delivered (checked above): the frames the partition ate were retransmissions of messages whose
+                # first copy had got through -- nothing was left to report
+                col.count("partition_only_hit_redundant_retransmissions")
+            elif affected:
                 budget_ns = (comms.max_retries_per_message + 3) * (grace_ms + 800) * 10**6 + 200 * 1000 * 10**6
                 if r[1] - min(affected) > budget_ns:
                     col.violation(f"partition-reported-too-late:{side}", f"raise came {(r[1] - min(affected)) / 1e9:.1f} virtual s after the first dropped transmission", wit, index)
